@@ -138,3 +138,30 @@ Definition concat_groups (ocg : nat) (parts : nat -> nat -> Z) (co : nat) : Z :=
 Definition group_slices (groups ic oc : nat) : list (Z * Z * Z * Z) :=
   map (fun g => (Z.of_nat (g * (ic / groups)), Z.of_nat ((g + 1) * (ic / groups)),
                  Z.of_nat (g * (oc / groups)), Z.of_nat ((g + 1) * (oc / groups)))) (seq 0 groups).
+
+(* ---------- fixup_strided_conv: a stride the hardware does not have, realised by folding the width into the depth ---------- *)
+(* one row; x p c = value (minus zero point, 0 outside the map) at width position p (any integer) and channel c;
+   wp k c = weight (minus zero point) of tap k of the kernel AFTER it was padded to a multiple of the fold factor n.
+   original operator: taps kq * n, stride n * s, `off` zeros in front *)
+Definition dsum (a b : nat) (f : nat -> nat -> Z) : Z :=
+  zsum (map (fun i => zsum (map (fun j => f i j) (seq 0 b))) (seq 0 a)).
+Definition strided_conv (kq n c : nat) (wp : nat -> nat -> Z) (x : Z -> nat -> Z) (s off o : Z) : Z :=
+  dsum (kq * n) c (fun k ch => wp k ch * x (o * (Z.of_nat n * s) - off + Z.of_nat k) ch).
+(* the rewritten operator: n neighbouring positions become n * c channels (position p, channel j * c + ch holds
+   x (p * n + j) ch), the kernel is folded the same way, stride s, `offq` folded positions of zeros in front *)
+Definition fold_x (n c : nat) (x : Z -> nat -> Z) (p : Z) (d : nat) : Z := x (p * Z.of_nat n + Z.of_nat (d / c)) (d mod c)%nat.
+Definition fold_w (n c : nat) (wp : nat -> nat -> Z) (q d : nat) : Z := wp (q * n + d / c)%nat (d mod c)%nat.
+Definition folded_conv (kq n c : nat) (wp : nat -> nat -> Z) (x : Z -> nat -> Z) (s offq o : Z) : Z :=
+  dsum kq (n * c) (fun q d => fold_w n c wp q d * fold_x n c x (o * s - offq + Z.of_nat q) d).
+(* the padded kernel: l zeros, the kw taps of w, zeros *)
+Definition pad_kernel (l kw : nat) (w : nat -> nat -> Z) (k ch : nat) : Z :=
+  if ((l <=? k) && (k <? l + kw))%nat then w (k - l)%nat ch else 0.
+(* what the check validates on the implementation's result (all in original width units unless said otherwise):
+   stride = n * s, width divisible by n, padded kernel width divisible by n, and the zeros in front agree:
+   new hardware padding (folded positions) * n = old hardware padding + zeros added in front of the kernel *)
+Definition fold_conditions (stride n s width kw l r pad_old pad_new_folded : Z) : bool :=
+  (0 <? n) && (stride =? n * s) && (width mod n =? 0) && ((kw + l + r) mod n =? 0) && (pad_new_folded * n =? pad_old + l).
+(* Vela's leading SAME padding of a convolution: needed_total_padding // 2 *)
+Definition needed_total_padding (input stride kernel : Z) : Z :=
+  let out := (input + stride - 1) / stride in Z.max ((out - 1) * stride + kernel - input) 0.
+Definition same_lead_pad (input stride kernel : Z) : Z := needed_total_padding input stride kernel / 2.
